@@ -179,9 +179,31 @@ def main():
                           tp=h.MosType.NMOS, family=h.MosFamily.CORE)(d=top.d, g=top.g, s=top.s, b=top.b), name="x")
             pdkmod.compile(top)
             return top
+        if k in (13, 14):
+            # two generators over ONE param-class, called with equal values that print differently (0.0 / -0.0): what one is
+            # named must not depend on whether the other was called before
+            import typing
+            if "ZeroP" not in shape_state:
+                @h.paramclass
+                class ZeroP:
+                    v = h.Param(dtype=float, desc="v")
+                    n = h.Param(dtype=int, desc="n", default=2)
+                shape_state["ZeroP"] = ZeroP
+            ZeroP = shape_state["ZeroP"]
+
+            def body(p: ZeroP) -> h.Module:
+                m = h.Module()
+                m.add(h.Signal(name="s", width=p.n))
+                return m
+            body.__name__ = "ShapeHi" if k == 13 else "ShapeLo"
+            G = h.generator(body)
+            top = h.Module(name="ShapeZero%d" % k)
+            top.add(G(v=0.0 if k == 13 else -0.0, n=2)(), name="a")
+            return top
         raise ValueError(k)
 
-    NSHAPES = 13
+    shape_state = {}
+    NSHAPES = 15
     stats = {}
     items = job["items"]
     drop = job.get("drop", False)  # earlier designs are discarded and collected, so later objects re-use their addresses
